@@ -21,6 +21,8 @@ const EXT: &[(&str, &str)] = &[
     ("mixin", "{b: 2} + {assert self.b > 0}"),
     // an object whose assertion depends on a field that later requests remove / override
     ("svc", "{ assert self.port > 0 : 'no port', port: 8080, name: 'svc' }"),
+    // two objects whose assertions read each other: one check runs inside the other
+    ("ab", "{ A: { assert $.B.y == 2, x: 1 }, B: { assert $.A.x == 2 : 'B-assertion', y: 2 } }"),
     // a value computed while an object's assertions are being checked (and then fail)
     ("prov", "local O = { assert helper > 0 && self.y > 0 : 'bad', x: 1, y: -1 }, helper = O.x; { O: O, helper: helper }"),
 ];
@@ -89,6 +91,8 @@ const SOURCES: &[&str] = &[
     "[std.objectFields(std.objectRemoveKey(std.extVar('svc'), 'name')), std.extVar('svc') { port: 1 }.port]",
     "std.mergePatch(std.extVar('svc'), {port: null})",
     "std.extVar('svc') + {port: -1}",
+    "std.extVar('ab').B.y",
+    "std.extVar('ab').A.x",
     "std.extVar('prov').O.x",
     "std.extVar('prov').helper",
     "local o = { a: std.objectRemoveKey(self, 'late_' + 'gone').a }; o.a",
